@@ -14,10 +14,16 @@
    DupIsTheOnlyDeviation (finding #11: with a duplicate before the end the plugin ends Incomplete), and
    ClassesAgree: the wire-based reading of the statement (FileTransferDefs!Scan, used by the trace contract)
    classifies every behaviour exactly like the fault labels of this sender.
+   With AutoSave = TRUE the auto-save directory is part of the state (base names may be shared by interleaved transfers,
+   files may appear in the directory at any time): DirGrowsOnly, DirJustified.
    With Emit = TRUE every finished behaviour prints one scenario line (wire script + predicted state kinds).   *)
 EXTENDS FileTransferDefs, TLC, Json
 
 CONSTANTS NT, MaxPk, BufSizes, MaxNoise, MaxFaults, Emit,
+          AutoSave,  \* TRUE: the auto-save directory is part of the state: transfers may share a base name, files may appear in
+                     \*       the directory at any time (MaxEnv); only used with MaxFaults = 0 (a lost announcement changes the name)
+          MaxEnv,    \* number of files the environment may create in the auto-save directory (any time, any base name in use)
+          FullLast,  \* TRUE: only files whose last package is full (keeps the auto-save enumeration small)
           DupAlso,   \* TRUE: one duplicate may be injected IN ADDITION to the single fault (used to judge the repair of #11)
           FixDup     \* TRUE: the proposed repair of finding #11 (a package below next_package is a duplicate: ignored, not counted)
 
@@ -28,8 +34,12 @@ VARIABLES shape,    \* [T -> [n, bs, last]]  the files
           wire,     \* history: what was actually sent
           noise,    \* number of unrelated messages sent
           pl,       \* [T -> plugin record for that key]
-          dups      \* [T -> number of additional duplicates injected (DupAlso)]
-vars == <<shape, sp, fault, wire, noise, pl, dups>>
+          dups,     \* [T -> number of additional duplicates injected (DupAlso)]
+          base,     \* [T -> base name (an id) of the transfer's file name]; transfers may share one (AutoSave)
+          dir,      \* the auto-save directory: set of [b |-> base name, c |-> content owner (transfer id, 0 = environment)]; only grows
+          dirh      \* history: the directory after every wire item
+vars == <<shape, sp, fault, wire, noise, pl, dups, base, dir, dirh>>
+ASSUME AutoSave => MaxFaults = 0
 
 BIG == 1000000      \* stands for u64::MAX packages in recovery mode
 
@@ -43,8 +53,10 @@ Ideal(t) == <<[t |-> t, k |-> "FLST", pkg |-> 0, len |-> 0, orig |-> TRUE]>>
 NoEntry == [known |-> FALSE, st |-> "none", nrP |-> 0, bufS |-> 0, fsz |-> 0, nextP |-> 1, recvd |-> 0, payload |-> 0, data |-> <<>>]
 
 MaxB == CHOOSE b \in BufSizes : \A c \in BufSizes : c <= b
-Shapes == {r \in [n : 1..MaxPk, bs : BufSizes, last : 1..MaxB] : r.last <= r.bs}
+Shapes == {r \in [n : 1..MaxPk, bs : BufSizes, last : 1..MaxB] : r.last <= r.bs /\ (FullLast => r.last = r.bs)}
 Init == /\ shape \in [T -> Shapes]
+        /\ base \in (IF AutoSave THEN {f \in [T -> T] : \A t \in T : f[t] <= t /\ (f[t] = t \/ f[t] = 1)} ELSE {[t \in T |-> t]})
+        /\ dir = {} /\ dirh = <<>>
         /\ sp = [t \in T |-> 0] /\ fault = [t \in T |-> "none"] /\ wire = <<>> /\ noise = 0
         /\ pl = [t \in T |-> NoEntry] /\ dups = [t \in T |-> 0]
 
@@ -89,7 +101,13 @@ Plugin(p, t, m) ==
 
 \* ---- sender with faults -----------------------------------------------------------------------------------
 Item(t, i) == Ideal(t)[i]
-Send(t, m) == /\ pl' = [pl EXCEPT ![t] = Plugin(pl[t], t, m)] /\ wire' = Append(wire, m)
+\* check_auto_save, as coded: when a transfer becomes Complete its bytes are written to <dir>/<base name> unless that exists NOW
+HasName(d, b) == \E e \in d : e.b = b
+AutoDir(t, p2) == IF AutoSave /\ pl[t].st # "Complete" /\ p2.st = "Complete" /\ ~HasName(dir, base[t])
+                  THEN dir \cup {[b |-> base[t], c |-> t]} ELSE dir
+Send(t, m) == LET p2 == Plugin(pl[t], t, m)
+                  d2 == AutoDir(t, p2)
+              IN /\ pl' = [pl EXCEPT ![t] = p2] /\ wire' = Append(wire, m) /\ dir' = d2 /\ dirh' = Append(dirh, d2)
 MayFault(t) == fault[t] = "none" /\ Cardinality({u \in T : fault[u] # "none"}) < MaxFaults
 
 Normal(t) == /\ fault[t] # "swapA" /\ sp[t] < Len(Ideal(t)) /\ Send(t, Item(t, sp[t] + 1))
@@ -97,7 +115,7 @@ Normal(t) == /\ fault[t] # "swapA" /\ sp[t] < Len(Ideal(t)) /\ Send(t, Item(t, s
 Drop(t) == /\ MayFault(t) /\ sp[t] < Len(Ideal(t)) /\ sp' = [sp EXCEPT ![t] = @ + 1]
            /\ fault' = [fault EXCEPT ![t] = (IF Item(t, sp[t] + 1).k = "FLDA" THEN "dropPkg"
                                              ELSE IF Item(t, sp[t] + 1).k = "FLST" THEN "dropFLST" ELSE "dropFLFI")]
-           /\ UNCHANGED <<wire, pl, noise>>
+           /\ UNCHANGED <<wire, pl, noise, dir, dirh>>
 Dup(t) == /\ MayFault(t)
           /\ \E j \in 2..sp[t] : Item(t, j).k = "FLDA" /\ Send(t, Item(t, j))
           /\ fault' = [fault EXCEPT ![t] = "dup"] /\ UNCHANGED <<sp, noise>>
@@ -115,12 +133,21 @@ Resize(t) == /\ MayFault(t) /\ sp[t] < Len(Ideal(t)) /\ Item(t, sp[t] + 1).k = "
              /\ sp' = [sp EXCEPT ![t] = @ + 1] /\ fault' = [fault EXCEPT ![t] = "resize"] /\ UNCHANGED noise
 Noise == /\ noise < MaxNoise /\ noise' = noise + 1
          /\ wire' = Append(wire, [t |-> 0, k |-> "X", pkg |-> 0, len |-> 0, orig |-> TRUE])
-         /\ UNCHANGED <<sp, fault, pl>>
+         /\ dirh' = Append(dirh, dir) /\ UNCHANGED <<sp, fault, pl, dir>>
+\* environment: a file with a base name in use appears in the auto-save directory (pkg = the base name)
+Env == /\ AutoSave /\ Cardinality({e \in dir : e.c = 0}) < MaxEnv
+       /\ \E b \in {base[t] : t \in T} :
+             /\ ~HasName(dir, b)
+             /\ dir' = dir \cup {[b |-> b, c |-> 0]}
+             /\ wire' = Append(wire, [t |-> 0, k |-> "ENV", pkg |-> b, len |-> 0, orig |-> TRUE])
+             /\ dirh' = Append(dirh, dir')
+       /\ UNCHANGED <<sp, fault, pl, noise>>
 
-Next == /\ UNCHANGED shape
+Next == /\ UNCHANGED <<shape, base>>
         /\ \/ \E t \in T : (Normal(t) \/ Drop(t) \/ Dup(t) \/ SwapA(t) \/ SwapB(t) \/ Resize(t)) /\ UNCHANGED dups
            \/ \E t \in T : DupExtra(t)
            \/ Noise /\ UNCHANGED dups
+           \/ Env /\ UNCHANGED dups
 Spec == Init /\ [][Next]_vars
 
 \* ---- properties -------------------------------------------------------------------------------------------
@@ -149,6 +176,13 @@ ClassesAgree ==
      /\ (s.dup => fault[t] = "dup")
      /\ (fault[t] = "dropFLST" <=> (sp[t] >= 1 /\ ~Announced(wire, t, Len(wire))))
 
+\* the auto-save directory: entries never change or vanish (action property), one entry per name, every entry is the
+\* environment's or the bytes of a COMPLETE transfer with that base name
+DirGrowsOnly == [][\A e \in dir : e \in dir']_vars
+DirJustified == /\ \A e, f \in dir : e.b = f.b => e = f
+                /\ \A e \in dir : e.c = 0 \/ (pl[e.c].st = "Complete" /\ base[e.c] = e.b)
+                /\ Len(dirh) = Len(wire)
+
 \* ---- scenario emission ------------------------------------------------------------------------------------
 Kind(t) == CASE pl[t].st = "none" -> "none" [] pl[t].st = "Started" -> "started" [] pl[t].st = "MissingStart" -> "missing"
              [] pl[t].st = "Complete" -> "complete" [] pl[t].st = "Incomplete" -> "incomplete"
@@ -157,5 +191,6 @@ LiveOk(t) == (Announced(wire, t, Len(wire)) /\ AllArrived(wire, t, Lens(t), Len(
 EmitScn == (Emit /\ Finished) =>
    PrintT(<<"SCN", ToJson([shape |-> shape, wire |-> wire, kinds |-> [t \in T |-> Kind(t)], fault |-> fault,
                            saves |-> [t \in T |-> pl[t].st = "Complete"],   \* the save command yields the original bytes
+                           auto |-> AutoSave, base |-> base, dir |-> dir, dirh |-> dirh,
                            contract_ok |-> (\A t \in T : LiveOk(t))])>>)
 =============================================================================
